@@ -69,3 +69,37 @@ func VH_C11_mbappAsk() bool {
 	}
 	return true
 }
+
+//verif: replay=schedule sched=coop time=concrete unwind=24 cover=both-answered bounds="mbapp: two asks outstanding at once from one swarm to another (symbolic 1-byte requests, multi-part 3-byte responses derived from the request), two server goroutines answering in either order: each Ask returns the answer computed for its own request"
+func VH_C11_mbappTwoOutstandingAsks() bool {
+	peers := map[vAddr]*Swarm[vAddr, struct{}]{}
+	var s1, s2 []vSent
+	a := vNewSwarm(vInner{mtu: HeaderSize + 2, sent: &s1}, 16)
+	b := vNewSwarm(vInner{mtu: HeaderSize + 2, sent: &s2}, 16)
+	a.inner = vLoop{vInner: vInner{mtu: HeaderSize + 2, sent: &s1}, self: 1, peers: &peers}
+	b.inner = vLoop{vInner: vInner{mtu: HeaderSize + 2, sent: &s2}, self: 2, peers: &peers}
+	peers[1], peers[2] = a, b
+	x1, x2 := vByte(), vByte()
+	handler := func(ctx context.Context, resp []byte, m p2p.Message[vAddr]) int {
+		resp[0], resp[1], resp[2] = m.Payload[0], m.Payload[0]^0x5a, 0x33
+		return 3
+	}
+	for i := 0; i < 2; i++ {
+		go func() { b.ServeAsk(context.Background(), handler) }()
+	}
+	var n2 int
+	var e2 error
+	b1, b2 := make([]byte, 3), make([]byte, 3)
+	d2 := make(chan struct{})
+	go func() {
+		n2, e2 = a.Ask(context.Background(), b2, 2, p2p.IOVec{[]byte{x2}})
+		close(d2)
+	}()
+	n1, e1 := a.Ask(context.Background(), b1, 2, p2p.IOVec{[]byte{x1}})
+	<-d2
+	vAssert(e1 == nil && e2 == nil && n1 == 3 && n2 == 3, "ask-failed-with-live-servers")
+	vAssert(b1[0] == x1 && b1[1] == x1^0x5a && b1[2] == 0x33, "first-ask-did-not-get-its-own-answer")
+	vAssert(b2[0] == x2 && b2[1] == x2^0x5a && b2[2] == 0x33, "second-ask-did-not-get-its-own-answer")
+	vCover("both-answered")
+	return true
+}
